@@ -183,6 +183,7 @@ Box::Box(bool user_mem, int prefill) {
         cfg.dsp_memory = user_memory.data();
     }
     t = std::make_unique<Teakra::Teakra>(cfg);
+    raw_mem = t->GetDspMemory();
 }
 
 void Box::install_callbacks() {
@@ -234,6 +235,8 @@ void Box::install_callbacks() {
     t->SetAudioCallback([this](std::array<std::int16_t, 2> s) {
         events.push_back(Event{Event::Audio, 0, (u32)(u16)s[0], (u32)(u16)s[1]});
     });
+    if (polling_host)
+        return;
     for (u8 ch = 0; ch < 3; ++ch) {
         t->SetRecvDataHandler(ch, [this, ch]() {
             ++handler_calls[ch];
